@@ -11,12 +11,13 @@ Oracle : isolated execution (a fresh instance of the same class, alone in a fres
 """
 import copy
 import random
+import types
 
 import numpy as np
 
 from sim import datagen
 from sim.canon import EventLog, canon, field_hashes, h_array, h_obj
-from sim.seams import FaultPlan, GlobalStateGuard, NumProxy, SimCrash, SimFS, exc_for_site
+from sim.seams import FaultPlan, GlobalStateGuard, NumProxy, SimCrash, SimFS, SimOS, exc_for_site
 
 PROPERTY = "C15"
 CHUNK = 4
@@ -71,6 +72,8 @@ def init_worker():
     fs = SimFS(plan)
     _S["fs"] = fs
     fgen.open = fs.open  # module attribute shadows the builtin inside pyoma2.functions.gen only
+    if isinstance(getattr(fgen, "os", None), types.ModuleType):
+        fgen.os = SimOS(fgen.os, fs)  # only present if a version of the library uses os around saving
     _S["gen"] = fgen
     # make the call log available
     plan.calls = None
@@ -326,9 +329,9 @@ class World:
         self.algs = [make_alg(a) for a in w["algs"]]
         self.st = [AlgState(a) for a in w["algs"]]
         self.refs = {}  # isolated-execution memo
-        self.saved = {}  # path -> list of snapshots (canon) that may legitimately be read back
+        self.saved = {}  # path -> records {"snap", "states", "setup"} that may legitimately be read back
         self.last_good = {}  # setup index -> path of its latest successful save
-        self.saved_states = {}  # path -> {alg index: AlgState at save time}
+        self.complete = {}  # path -> did the latest save to it complete?
         self.shadows = []  # (loaded object, canon at load time) for the aliasing check
         self.stop = False
         self.last_op = None
@@ -1051,10 +1054,25 @@ def _do_mpe(wd, op, step, before):
 
 
 # -- persistence --------------------------------------------------------------------------------
+# Disk model: for every path the list of records {"snap": canonical setup, "states": model states} that a load
+# may legitimately return, plus whether the latest save to it completed. A save that fails or is cut by a crash
+# may leave the old content (atomic implementations), the new content, or something unreadable - never a setup
+# that was not saved there.
+def _record(wd, si):
+    return {"snap": canon_setup(wd.setups[si]), "states": {i: copy.copy(wd.st[i]) for i in wd.members(si)}, "setup": si}
+
+
+def _match(wd, path, got):
+    for rec in reversed(wd.saved.get(path, [])):
+        if rec["snap"] == got:
+            return rec
+    return None
+
+
 def _do_save(wd, op, step):
     si, path = op["setup"], op["path"]
     gen = _S["gen"]
-    snap = canon_setup(wd.setups[si])
+    rec = _record(wd, si)
     wd.fs.begin_op()
     _arm(wd, op)
     try:
@@ -1068,20 +1086,17 @@ def _do_save(wd, op, step):
         if rexc is None:
             wd.violate("persist.err_swallowed", step, f"the disk reported {fired[0]['site']} failure during save_to_file but the call returned normally")
             return "fault"
-        # the file now holds garbage, a prefix, or (error on close) the complete new content
-        wd.saved[path] = [snap] if fired[0]["site"] != "fs.open" else wd.saved.get(path, [])
-        if fired[0]["site"] == "fs.open" and wd.last_good.get(si) == path:
-            pass  # nothing was touched
-        elif wd.last_good.get(si) == path:
-            wd.last_good.pop(si)
+        wd.saved[path] = wd.saved.get(path, []) + [rec]
+        wd.complete[path] = False
         return "fault"
     if rexc is not None:
         wd.violate("persist.save_raises", step, f"save_to_file raised {type(rexc).__name__}: {rexc}")
         return "exc"
-    wd.saved[path] = [snap]
+    wd.saved[path] = [rec]
+    wd.complete[path] = True
     wd.last_good[si] = path
-    wd.saved_states[path] = {i: copy.copy(wd.st[i]) for i in wd.members(si)}
-    wd.res["sets"].setdefault("pickle_bytes", set()).add(str(len(wd.fs.files[path]) // 10000 * 10000))
+    if path in wd.fs.files:
+        wd.res["sets"].setdefault("pickle_bytes", set()).add(str(len(wd.fs.files[path]) // 10000 * 10000))
     return "ok"
 
 
@@ -1104,16 +1119,15 @@ def _do_load_check(wd, op, step):
         if rexc is None:
             wd.violate("persist.err_swallowed", step, f"the disk reported a {fired[0]['site']} failure during load_from_file but the call returned an object")
         return "fault"
-    ok_snaps = wd.saved.get(path, [])
     if rexc is not None:
-        complete = path in wd.last_good.values()
-        if complete:
+        if wd.complete.get(path):
             wd.violate("persist.neq", step, f"a file written by a successful save_to_file cannot be loaded: {type(rexc).__name__}: {rexc}")
         return "exc"
     got = canon_setup(obj)
-    if got not in ok_snaps:
-        wd.violate("persist.garbage_load" if path not in wd.last_good.values() else "persist.neq", step,
-                   "load_from_file returned a setup that differs from what was saved to that file: " + _canon_diff(got, ok_snaps))
+    if _match(wd, path, got) is None:
+        wd.violate("persist.neq" if wd.complete.get(path) else "persist.garbage_load", step,
+                   "load_from_file returned a setup that differs from what was saved to that file: "
+                   + _canon_diff(got, [r["snap"] for r in wd.saved.get(path, [])]))
         return "ok"
     wd.shadows.append((obj, got))
     wd.inc("probe.load_equal")
@@ -1150,7 +1164,8 @@ def _adopt(wd, si, obj):
 
 def _do_restart(wd, op, step):
     si, path = op["setup"], op["path"]
-    snap = canon_setup(wd.setups[si])
+    rec = _record(wd, si)
+    snap = rec["snap"]
     wd.fs.begin_op()
     wd.plan.reset()
     try:
@@ -1158,9 +1173,9 @@ def _do_restart(wd, op, step):
     except Exception as e:
         wd.violate("persist.save_raises", step, f"save_to_file raised {type(e).__name__}: {e}")
         return "exc"
-    wd.saved[path] = [snap]
+    wd.saved[path] = [rec]
+    wd.complete[path] = True
     wd.last_good[si] = path
-    wd.saved_states[path] = {i: copy.copy(wd.st[i]) for i in wd.members(si)}
     old = wd.setups[si]
     try:
         obj = _load(wd, path)
@@ -1186,11 +1201,10 @@ def _do_crash(wd, op, step):
     """The process dies inside save_to_file; every live object is lost; the world restarts from disk."""
     si, path = op["setup"], op["path"]
     gen = _S["gen"]
-    snap = canon_setup(wd.setups[si])
-    # size of the complete pickle, to place the crash inside it
+    rec = _record(wd, si)
     import pickle
 
-    total = len(pickle.dumps(wd.setups[si]))
+    total = len(pickle.dumps(wd.setups[si]))  # size of the complete pickle, to place the crash inside it
     cut = int(op["frac"] * total)
     wd.fs.begin_op(crash_after=cut)
     wd.plan.reset()
@@ -1204,38 +1218,43 @@ def _do_crash(wd, op, step):
         return "exc"
     wd.fs.begin_op()
     wd.inc("fault.fired.save_crash" if crashed else "fault.configured_not_fired")
-    wd.saved[path] = [snap]
-    wd.saved_states[path] = {i: copy.copy(wd.st[i]) for i in wd.members(si)}
-    if wd.last_good.get(si) == path:
-        wd.last_good.pop(si)
-    if not crashed:
+    if crashed:
+        wd.saved[path] = wd.saved.get(path, []) + [rec]
+        wd.complete[path] = False
+    else:
+        wd.saved[path] = [rec]
+        wd.complete[path] = True
         wd.last_good[si] = path
     # restart of the whole world from what the disk holds
     for sj in range(len(wd.setups)):
-        p = path if sj == si else wd.last_good.get(sj)
-        obj = None
-        if p is not None:
+        tries = [path] if sj == si else []
+        if wd.last_good.get(sj) and wd.last_good[sj] not in tries:
+            tries.append(wd.last_good[sj])
+        restored = False
+        for p in tries:
+            if not any(r["setup"] == sj for r in wd.saved.get(p, [])):
+                continue
             try:
                 obj = _load(wd, p)
             except Exception:
-                obj = None
-                if p in wd.last_good.values():
+                if wd.complete.get(p):
                     wd.violate("persist.neq", step, f"the complete file {p} cannot be loaded after the crash")
                     return "fault"
                 wd.inc("probe.torn_file_rejected")
-            if obj is not None:
-                got = canon_setup(obj)
-                if got not in wd.saved.get(p, []):
-                    wd.violate("persist.garbage_load", step,
-                               f"after a crash {cut}/{total} bytes into the save, load_from_file({p}) returned a setup that was never saved: "
-                               + _canon_diff(got, wd.saved.get(p, [])))
-                    return "fault"
-                if sj == si:
-                    wd.inc("probe.torn_file_loaded_complete")
-        if obj is not None:
-            # the state this setup is restored to is the saved one, which may be older than the live one
-            _restore_model_from(wd, sj, obj, wd.saved_states.get(p, {}))
-        else:
+                continue
+            got = canon_setup(obj)
+            m = _match(wd, p, got)
+            if m is None:
+                wd.violate("persist.garbage_load", step,
+                           f"after a crash {cut}/{total} bytes into the save, load_from_file({p}) returned a setup that was never saved: "
+                           + _canon_diff(got, [r["snap"] for r in wd.saved.get(p, [])]))
+                return "fault"
+            if p == path and sj == si and crashed:
+                wd.inc("probe.torn_save_left_a_loadable_file")
+            _restore_model_from(wd, sj, obj, m["states"])
+            restored = True
+            break
+        if not restored:
             _fresh_setup(wd, sj)
     return "fault"
 
